@@ -36,7 +36,7 @@ class Trace:
     def __init__(self, lines):
         self.lines = lines
         self.ret = None
-        self.consumed = b""          # bytes delivered to the client, in order
+        self.consumed = bytearray()   # bytes delivered to the client, in order (bytes once the trace is read)
         self.op_starts = []          # offsets in `consumed` where a recv_all operation started
         self.sent_segments = [[]]    # accepted bytes, split at failed sends
         self.events = []
@@ -112,6 +112,7 @@ class Trace:
                     self.ret = int(w[1])
         if hdr is not None:
             self.events.append(("pdu", hdr, False))
+        self.consumed = bytes(self.consumed)
 
     def sent_bytes(self):
         return [b"".join(d for _, d in seg) for seg in self.sent_segments]
